@@ -532,6 +532,7 @@ def extract_gc(ctx, sliced, fired):
         t = rw.sub(t, r'\bcontrol_storage\* const c = ', 'struct cstorage* const c = ', 0 if nm == 'erase_if_present' else 1, name='type')
         t = scoped_locks_rv(rw, t, r'spin_mutex::scoped_lock lock\(([^()]*)\);', rett)
         t = rw.sub(t, r'\(\*c->my_list\.begin\(\)\)', 'SET_DEREF(SET_BEGIN(c->my_list))', 0, name='std::set::begin + dereference -> SET_BEGIN/SET_DEREF')
+        t = rw.sub(t, r'\(\*c->my_list\.rbegin\(\)\)', 'SET_DEREF(SET_RBEGIN(c->my_list))', 0, name='std::set::rbegin + dereference -> SET_RBEGIN/SET_DEREF (not in the pinned text; keeps a begin/rbegin mix-up decidable)')
         t = rw.sub(t, r'\bc->my_list\.empty\(\)', 'SET_EMPTY(c->my_list)', 0, name='std::set::empty -> SET_EMPTY')
         t = rw.sub(t, r'\bc->my_list\.insert\(', 'SET_INSERT(c->my_list, ', 0, name='std::set::insert -> SET_INSERT (behaviour-bearing)')
         t = rw.sub(t, r'\bauto it = c->my_list\.find\(', 'set_iter it = SET_FIND(c->my_list, ', 0, name='std::set::find -> SET_FIND')
@@ -555,6 +556,189 @@ def extract_gc(ctx, sliced, fired):
     fired['gcontrol'] = rw.fired
 
 
+def extract_proxy(ctx, sliced, fired):
+    """thread_request_serializer_proxy (mandatory concurrency around a soft limit of 0): register_mandatory_request, set_active_num_workers,
+    enable/disable_mandatory_concurrency (+ thread_request_serializer::is_no_workers_avaliable); threading_control_impl::set_active_num_workers / adjust_demand and the
+    static threading_control::set_active_num_workers (plumbing between global_control, serializer and permit manager)."""
+    rw = Rewriter('proxy')
+    out = []
+    s = slice_block(TRS_H, r'bool is_no_workers_avaliable\(\)', within=r'class thread_request_serializer : public thread_request_observer \{')
+    sliced.append('%s:%d thread_request_serializer::is_no_workers_avaliable' % (TRS_H, s.line))
+    t = rw.sub(s.text, r'bool is_no_workers_avaliable\(\)', 'static bool trs_is_no_workers_avaliable(struct serializer* self)', 1, 1, name='sig')
+    out.append(rw.fields(t, ['my_soft_limit'], 0))
+    protos = ['static void proxy_enable_mandatory_concurrency(struct proxy* self);', 'static void proxy_disable_mandatory_concurrency(struct proxy* self);']
+    body = []
+    for fn, sg, csig in (('rmr', r'void thread_request_serializer_proxy::register_mandatory_request\(int mandatory_delta\)', 'void proxy_register_mandatory_request(struct proxy* self, int mandatory_delta)'),
+                         ('psa', r'void thread_request_serializer_proxy::set_active_num_workers\(int soft_limit\)', 'void proxy_set_active_num_workers(struct proxy* self, int soft_limit)'),
+                         ('emc', r'void thread_request_serializer_proxy::enable_mandatory_concurrency\(mutex_type::scoped_lock& lock\)', 'static void proxy_enable_mandatory_concurrency(struct proxy* self)'),
+                         ('dmc', r'void thread_request_serializer_proxy::disable_mandatory_concurrency\(mutex_type::scoped_lock& lock\)', 'static void proxy_disable_mandatory_concurrency(struct proxy* self)')):
+        s = slice_block(TRS, sg)
+        sliced.append('%s:%d %s' % (TRS, s.line, sg.replace('\\', '')[5:].split('(')[0]))
+        t = rw.sub(s.text, sg, csig, 1, 1, name='sig (the scoped_lock& parameter is the caller\'s lock on my_mutex: dropped)')
+        t = rw.sub(t, r'\block\.upgrade_to_writer\(\);', 'UPGRADE_TO_WRITER(self->my_mutex);', 0, name='scoped_lock::upgrade_to_writer -> UPGRADE_TO_WRITER (behaviour-bearing)')
+        t = rw.atomics(t, ['my_num_mandatory_requests'], 0)
+        t = rw.sub(t, r'(?<![\w.>])my_num_mandatory_requests (>|<|>=|<=|==|!=) ', r'ATOMIC_LOAD(my_num_mandatory_requests) \1 ', 0, name='implicit conversion of std::atomic<int> -> load')
+        t = rw.sub(t, r'\bmy_is_mandatory_concurrency_enabled = (true|false);', r'ENABLED_STORE(self, \1);', 0, name='store to my_is_mandatory_concurrency_enabled -> ENABLED_STORE (behaviour-bearing; checks the writer lock)')
+        t = rw.sub(t, r'\bmy_serializer\.set_active_num_workers\(', 'STUB_serializer_set_active_num_workers(self, ', 0, name='callee stub (behaviour-bearing): thread_request_serializer::set_active_num_workers (proved by serializer.set_active_num_workers)')
+        t = rw.sub(t, r'\bmy_serializer\.is_no_workers_avaliable\(\)', 'trs_is_no_workers_avaliable(&self->my_serializer)', 0, name='method of the member object')
+        t = rw.sub(t, r'(?<![\w.>:])(enable|disable)_mandatory_concurrency\(lock\)', r'proxy_\1_mandatory_concurrency(self)', 0, name='method (behaviour-bearing)')
+        t = rw.fields(t, ['my_num_mandatory_requests', 'my_is_mandatory_concurrency_enabled', 'my_mutex'], 0)
+        t = rw.scoped_locks(t, r'mutex_type::scoped_lock lock\(([^()]*)\);', 0, 1, lock='LOCK_RW', unlock='UNLOCK_RW')
+        t = rw.std(t)
+        t = rw.number_sites(t, fn, by_kind=True)
+        body.append(t)
+    common.write(ctx, 'proxy.inc', '\n'.join(out + protos + body) + '\n')
+    # plumbing
+    out = []
+    s = slice_block(TC, r'void threading_control_impl::set_active_num_workers\(unsigned soft_limit\)')
+    sliced.append('%s:%d threading_control_impl::set_active_num_workers' % (TC, s.line))
+    t = rw.sub(s.text, r'void threading_control_impl::set_active_num_workers\(unsigned soft_limit\)', 'void tci_set_active_num_workers(struct tc_impl* self, unsigned soft_limit)', 1, 1, name='sig')
+    t = rw.sub(t, r'\bmy_thread_request_serializer->set_active_num_workers\(', 'STUB_proxy_set_active_num_workers(self, ', 0, name='callee stub (behaviour-bearing): thread_request_serializer_proxy::set_active_num_workers(int)')
+    t = rw.sub(t, r'\bmy_permit_manager->set_active_num_workers\(', 'STUB_pm_set_active_num_workers(self, ', 0, name='callee stub (behaviour-bearing): permit_manager::set_active_num_workers(int) (market: request.set_active_num_workers)')
+    t = rw.sub(t, r'\bmy_thread_dispatcher->my_num_workers_hard_limit\b', 'self->hard_limit', 0, name='field of the thread dispatcher')
+    out.append(rw.std(rw.asserts(t, 0)))
+    s = slice_block(TC, r'void threading_control_impl::adjust_demand\(threading_control_client tc_client, int mandatory_delta, int workers_delta\)')
+    sliced.append('%s:%d threading_control_impl::adjust_demand' % (TC, s.line))
+    t = rw.sub(s.text, r'void threading_control_impl::adjust_demand\(threading_control_client tc_client, int mandatory_delta, int workers_delta\)',
+               'void tci_adjust_demand(struct tc_impl* self, struct tc_client tc_client, int mandatory_delta, int workers_delta)', 1, 1, name='sig')
+    t = rw.sub(t, r'auto& c = \*tc_client\.get_pm_client\(\);', 'void* c = tc_client.pm_client;', 1, 1, name='reference to the client\'s pm_client -> pointer')
+    t = rw.sub(t, r'\bmy_thread_request_serializer->register_mandatory_request\(', 'STUB_proxy_register_mandatory_request(self, ', 0, name='callee stub (behaviour-bearing): thread_request_serializer_proxy::register_mandatory_request')
+    t = rw.sub(t, r'\bmy_permit_manager->adjust_demand\(', 'STUB_pm_adjust_demand(self, ', 0, name='callee stub (behaviour-bearing): permit_manager::adjust_demand (market: request.adjust_demand)')
+    out.append(rw.std(t))
+    s = slice_block(TC, r'void threading_control::set_active_num_workers\(unsigned soft_limit\)')
+    sliced.append('%s:%d threading_control::set_active_num_workers' % (TC, s.line))
+    t = rw.sub(s.text, r'void threading_control::set_active_num_workers\(unsigned soft_limit\)', 'void tc_set_active_num_workers(unsigned soft_limit)', 1, 1, name='sig (static member)')
+    t = rw.sub(t, r'threading_control\* thr_control\{nullptr\};', 'struct tcontrol* thr_control = NULL;', 1, 1, name='value-initialisation {nullptr} -> = NULL')
+    t = rw.scoped_locks(t, r'global_mutex_type::scoped_lock lock\(([^()]*)\);', 0, 1)
+    t = rw.sub(t, r'(?<![\w.>:])get_threading_control\(', 'STUB_get_threading_control(', 0, name='callee stub (behaviour-bearing): threading_control::get_threading_control (adds a reference when a control exists)')
+    t = rw.sub(t, r'\bthr_control->my_pimpl->set_active_num_workers\(', 'STUB_pimpl_set_active_num_workers(thr_control, ', 0, name='callee stub (behaviour-bearing): threading_control_impl::set_active_num_workers')
+    t = rw.sub(t, r'\bthr_control->release\(', 'STUB_tc_release(thr_control, ', 0, name='callee stub (behaviour-bearing): threading_control::release')
+    out.append(rw.std(t))
+    # the limit a NEW threading control starts with
+    s = slice_block(MISC, r'T max \( const T& val1, const T& val2 \)')
+    out.append(rw.sub(s.text, r'T max \( const T& val1, const T& val2 \)', 'static unsigned tbb_max_unsigned(unsigned val1, unsigned val2)', 1, 1, name='sig + bind-template(T:=unsigned), const& -> value'))
+    s = slice_block(TC, r'unsigned threading_control_impl::calc_workers_soft_limit\(unsigned workers_hard_limit\)')
+    sliced.append('%s:%d threading_control_impl::calc_workers_soft_limit' % (TC, s.line))
+    t = rw.sub(s.text, r'unsigned threading_control_impl::calc_workers_soft_limit\(unsigned workers_hard_limit\)', 'static unsigned tci_calc_workers_soft_limit(unsigned workers_hard_limit)', 1, 1, name='sig (static member)')
+    t = rw.sub(t, r'unsigned workers_soft_limit\{\};', 'unsigned workers_soft_limit = 0;', 1, 1, name='value-initialisation {} -> = 0')
+    t = rw.sub(t, r'\bglobal_control_active_value_unsafe\(global_control::max_allowed_parallelism\)', 'STUB_active_parallelism()', 0, name='callee stub: global_control_active_value_unsafe(max_allowed_parallelism) (gcontrol.*: extremum over the live controls or the default)')
+    t = rw.sub(t, r'\bgovernor::default_num_threads\(\)', 'STUB_default_num_threads()', 0, name='callee stub: governor::default_num_threads')
+    out.append(rw.std(t))
+    s = slice_block(TC, r'std::pair<unsigned, unsigned> threading_control_impl::calculate_workers_limits\(\)')
+    sliced.append('%s:%d threading_control_impl::calculate_workers_limits' % (TC, s.line))
+    t = rw.sub(s.text, r'std::pair<unsigned, unsigned> threading_control_impl::calculate_workers_limits\(\)', 'struct uint_pair tci_calculate_workers_limits(void)', 1, 1, name='sig (std::pair<unsigned,unsigned> -> struct uint_pair {first, second})')
+    t = rw.sub(t, r'\bglobal_control_active_value_unsafe\(global_control::max_allowed_parallelism\)', 'STUB_active_parallelism()', 0, name='callee stub: global_control_active_value_unsafe(max_allowed_parallelism)')
+    t = rw.sub(t, r'\bgovernor::default_num_threads\(\)', 'STUB_default_num_threads()', 0, name='callee stub: governor::default_num_threads')
+    t = rw.sub(t, r'(?<![\w.>:])max\(', 'tbb_max_unsigned(', 0, name='max<unsigned>')
+    t = rw.sub(t, r'(?<![\w.>:])calc_workers_soft_limit\(', 'tci_calc_workers_soft_limit(', 0, name='method (static)')
+    t = rw.sub(t, r'return std::make_pair\((\w+), (\w+)\);', r'return (struct uint_pair){ \1, \2 };', 1, 1, name='std::make_pair -> compound literal')
+    out.append(rw.std(t))
+    common.write(ctx, 'plumbing.inc', '\n'.join(out) + '\n')
+    fired['proxy'] = rw.fired
+
+
+def extract_join(ctx, sliced, fired):
+    """the arena's reference word (external bits | worker count): num_workers_active, is_recall_requested, is_joinable, try_join, on_thread_leaving."""
+    rw = Rewriter('join')
+    out = []
+    for nm in ('ref_external_bits', 'ref_external', 'ref_worker'):
+        st = cxx2c.slice_stmt(AH, r'static const unsigned %s\s*=' % nm)
+        m = re.search(r'%s\s*=\s*([^;]+);' % nm, st.text)
+        if not m:
+            raise ExtractionBreak('arena::%s initialiser not found' % nm)
+        sliced.append('%s:%d arena::%s' % (AH, st.line, nm))
+        out.append('#define %s ((unsigned)(%s))' % (nm, m.group(1).strip()))
+    common.write(ctx, 'join_defs.inc', '\n'.join(out) + '\n')
+    out = []
+    sliced_raw = set()
+    for nm, sg, csig in (('nwa', r'unsigned num_workers_active\(\) const', 'static unsigned arena_num_workers_active(struct arena_j* self)'),
+                         ('irr', r'bool is_recall_requested\(\) const', 'bool arena_is_recall_requested(struct arena_j* self)'),
+                         ('ij', r'bool is_joinable\(\) const', 'static bool arena_is_joinable(struct arena_j* self)')):
+        s = slice_block(AH, sg, within=r'class arena\s*:')
+        sliced.append('%s:%d arena::%s' % (AH, s.line, sg.split('(')[0].split()[-1].replace('\\', '')))
+        sliced_raw.update(x.strip() for x in s.text.split('\n'))
+        t = rw.sub(s.text, sg, csig, 1, 1, name='sig')
+        t = rw.atomics(t, ['my_references', 'my_num_workers_allotted'], 0)
+        t = rw.sub(t, r'(?<![\w.>:])num_workers_active\(\)', 'arena_num_workers_active(self)', 0, name='method')
+        t = rw.fields(t, ['my_references', 'my_num_workers_allotted'], 0)
+        t = rw.std(t)
+        out.append(rw.number_sites(t, nm, by_kind=True))
+    s = slice_block(AR, r'bool arena::try_join\(\)')
+    sliced.append('%s:%d arena::try_join' % (AR, s.line))
+    sliced_raw.update(x.strip() for x in s.text.split('\n'))
+    t = rw.sub(s.text, r'bool arena::try_join\(\)', 'bool arena_try_join(struct arena_j* self)', 1, 1, name='sig')
+    t = rw.sub(t, r'\barena::(ref_\w+)\b', r'\1', 0, name='ns-strip')
+    t = rw.atomics(t, ['my_references'], 0)
+    t = rw.sub(t, r'(?<![\w.>:])is_joinable\(\)', 'arena_is_joinable(self)', 0, name='method')
+    t = rw.fields(t, ['my_references'], 0)
+    t = rw.std(t)
+    out.append(rw.number_sites(t, 'tj', by_kind=True))
+    s = slice_block(AR, r'void arena::on_thread_leaving\(unsigned ref_param\)')
+    sliced.append('%s:%d arena::on_thread_leaving' % (AR, s.line))
+    sliced_raw.update(x.strip() for x in s.text.split('\n'))
+    t = rw.sub(s.text, r'void arena::on_thread_leaving\(unsigned ref_param\)', 'void arena_on_thread_leaving(struct arena_j* self, unsigned ref_param)', 1, 1, name='sig')
+    t = rw.sub(t, r'\bmy_mandatory_concurrency\.test\(\)', 'STUB_mandatory_test(self)', 0, name='callee stub: atomic_flag::test on my_mandatory_concurrency')
+    t = rw.sub(t, r'(?<![\w.>:])out_of_work\(\);', 'STUB_out_of_work(self);', 0, name='callee stub (behaviour-bearing): arena::out_of_work (request.out_of_work)')
+    t = rw.sub(t, r'threading_control\* tc = my_threading_control;', 'struct tcontrol_j* tc = self->my_threading_control;', 1, 1, name='type + field')
+    t = rw.sub(t, r'auto tc_client_snapshot = tc->prepare_client_destruction\(my_tc_client\);', 'struct snapshot_j tc_client_snapshot = STUB_prepare_client_destruction(tc, self);', 1, 1,
+               name='callee stub: threading_control::prepare_client_destruction (reads my_tc_client of the live arena)')
+    t = rw.sub(t, r'\btc->try_destroy_client\(', 'STUB_try_destroy_client(tc, ', 0, name='callee stub (behaviour-bearing): threading_control::try_destroy_client')
+    t = rw.sub(t, r'(?<![\w.>:])free_arena\(\);', 'STUB_free_arena(self);', 0, name='callee stub (behaviour-bearing): arena::free_arena')
+    t = rw.atomics(t, ['my_references'], 0)
+    t = rw.fields(t, ['my_references'], 0)
+    t = rw.std(rw.asserts(t, 0))
+    out.append(rw.number_sites(t, 'otl', by_kind=True))
+    # closed world: every occurrence of my_references in src/tbb is a read, the constructor's initial value, or adds / removes one whole worker / external reference
+    import glob
+    ok = [r'my_references\.load\(', r'\bmy_references \+= arena::ref_(?:worker|external);', r'\bmy_references\.fetch_sub\(ref_param\b', r'^\s*my_references = ref_external;',
+          r'std::atomic<unsigned> my_references;', r'__TBB_ASSERT\(a->my_references > 0, nullptr\);']
+    nscan = 0
+    for f in sorted(glob.glob(os.path.join(cxx2c.REPO, 'src/tbb/*.cpp')) + glob.glob(os.path.join(cxx2c.REPO, 'src/tbb/*.h'))):
+        rel = os.path.relpath(f, cxx2c.REPO)
+        txt = cxx2c.strip_comments(load(rel))
+        for ln in txt.split('\n'):
+            if 'my_references' in ln:
+                nscan += 1
+                if ln.strip() and ln.strip() in sliced_raw:
+                    continue      # inside try_join / on_thread_leaving / the arena.h accessors: whatever it does is checked by the join.* jobs
+                if not any(re.search(p_, ln) for p_ in ok):
+                    raise ExtractionBreak('closed-world scan: unknown use of arena::my_references in %s: %s' % (rel, ln.strip()))
+    rw.fired['closed-world scan: uses of arena::my_references'] = nscan
+    common.write(ctx, 'join.inc', '\n'.join(out) + '\n')
+    fired['join'] = rw.fired
+
+
+def extract_reg(ctx, sliced, fired):
+    """market::register_client / unregister_and_destroy_client: a client sits in the client list of its OWN priority level (what update_allotment's per-level sums rely on)."""
+    rw = Rewriter('register')
+    out = []
+    s = slice_block(MK, r'void market::register_client\(pm_client\* c, d1::constraints&\)')
+    sliced.append('%s:%d market::register_client' % (MK, s.line))
+    t = rw.sub(s.text, r'void market::register_client\(pm_client\* c, d1::constraints&\)', 'void market_register_client(struct market_g* self, struct pmclient_g* c)', 1, 1, name='sig (unnamed constraints& dropped)')
+    t = rw.scoped_locks(t, r'mutex_type::scoped_lock lock\(([^()]*)\);', 0, 1)
+    t = rw.sub(t, r'\bmy_clients\[([^\]]*)\]\.push_back\(', r'VEC_PUSH_BACK(&self->my_clients[\1], ', 0, name='std::vector::push_back -> VEC_PUSH_BACK (behaviour-bearing)')
+    t = rw.sub(t, r'\bc->priority_level\(\)', 'PMC_PRIORITY_LEVEL(c)', 0, name='pm_client::priority_level (sliced in request.*) -> the client\'s level')
+    t = rw.fields(t, ['my_mutex'], 0)
+    out.append(rw.std(t))
+    s = slice_block(MK, r'void market::unregister_and_destroy_client\(pm_client& c\)')
+    sliced.append('%s:%d market::unregister_and_destroy_client' % (MK, s.line))
+    t = rw.sub(s.text, r'void market::unregister_and_destroy_client\(pm_client& c\)', 'void market_unregister_and_destroy_client(struct market_g* self, struct pmclient_g* c)', 1, 1, name='sig')
+    t = rw.sub(t, r'&c\b', 'c', 0, name='address of a reference parameter -> the pointer')
+    t = rw.sub(t, r'\bc\.priority_level\(\)', 'PMC_PRIORITY_LEVEL(c)', 0, name='pm_client::priority_level -> the client\'s level')
+    t = rw.scoped_locks(t, r'mutex_type::scoped_lock lock\(([^()]*)\);', 0, 1)
+    t = rw.sub(t, r'auto& clients = my_clients\[([^\]]*)\];', r'struct cvec* clients = &self->my_clients[\1];', 1, 1, name='reference to the level\'s list -> pointer')
+    t = rw.sub(t, r'auto it = std::find\(clients\.begin\(\), clients\.end\(\), c\);', 'vec_iter it = VEC_FIND(clients, c);', 0, name='std::find over the whole vector -> VEC_FIND')
+    t = rw.sub(t, r'\bclients\.end\(\)', 'VEC_END(clients)', 0, name='std::vector::end -> VEC_END')
+    t = rw.sub(t, r'\bclients\.erase\(', 'VEC_ERASE(clients, ', 0, name='std::vector::erase -> VEC_ERASE (behaviour-bearing)')
+    t = rw.sub(t, r'auto client = static_cast<tbb_permit_manager_client\*>\(c\);', 'struct pmclient_g* client = c;', 1, 1, name='downcast dropped')
+    t = rw.sub(t, r'client->~tbb_permit_manager_client\(\);', 'STUB_client_dtor(client);', 0, name='destructor call -> stub (behaviour-bearing)')
+    t = rw.sub(t, r'cache_aligned_deallocate\(client\);', 'STUB_deallocate(client);', 0, name='deallocation -> stub (behaviour-bearing)')
+    t = rw.fields(t, ['my_mutex'], 0)
+    out.append(rw.std(rw.asserts(t, 0)))
+    common.write(ctx, 'register.inc', '\n'.join(out) + '\n')
+    fired['register'] = rw.fired
+
+
 def build(ctx):
     sliced, fired = extract(ctx)
     extract_flag(ctx, sliced, fired)
@@ -562,21 +746,24 @@ def build(ctx):
     extract_allot(ctx, sliced, fired)
     extract_req(ctx, sliced, fired)
     extract_gc(ctx, sliced, fired)
+    extract_proxy(ctx, sliced, fired)
+    extract_join(ctx, sliced, fired)
+    extract_reg(ctx, sliced, fired)
     C = os.path.join(HERE, 'c16.c')
     vmax = 15 if getattr(ctx, 'tier', 'quick') == 'thorough' else 7
     jobs = [
         Job('budget.limit_delta', C, 'h_limit_delta', route='LF', defines=['LD'], target='thread_request_serializer::limit_delta', source=TRS),
         Job('isolation.get_critical_task', C, 'h_critical', route='LF', defines=['CRIT'], target='task_dispatcher::get_critical_task', source=TD),
         Job('slots.try_occupy', C, 'h_try_occupy', route='RG', defines=['SLOTS'], target='arena_slot::try_occupy', source=AS),
-        Job('slots.occupy_in_range', C, 'h_in_range', route='LC', loops=True, nloops=2, defines=['SLOTS'], target='arena::occupy_free_slot_in_range', source=AR, timeout=600),
-        Job('allot.update_allotment.proportional', C, 'h_allot', route='LC', loops=True, nloops=2, defines=['ALLOT'], target='market::update_allotment, soft limit > 0 (+ pm_client accessors, set_allotment, arena::set_allotment/set_top_priority)', source=MK, timeout=600,
+        Job('slots.occupy_in_range', C, 'h_in_range', route='LC', loops=True, nloops=2, defines=['SLOTS'], target='arena::occupy_free_slot_in_range', source=AR, timeout=1800),
+        Job('allot.update_allotment.proportional', C, 'h_allot', route='LC', loops=True, nloops=2, defines=['ALLOT'], target='market::update_allotment, soft limit > 0 (+ pm_client accessors, set_allotment, arena::set_allotment/set_top_priority)', source=MK, timeout=1800,
             inputs=['IN_soft', 'IN_mand', 'IN_d0', 'IN_d1', 'IN_d2', 'IN_n0', 'IN_n1', 'IN_n2']),
-        Job('allot.update_allotment.soft0', C, 'h_allot', route='LC', loops=True, nloops=2, defines=['ALLOT', 'SOFT0'], target='market::update_allotment, soft limit 0 (mandatory concurrency)', source=MK, timeout=600,
+        Job('allot.update_allotment.soft0', C, 'h_allot', route='LC', loops=True, nloops=2, defines=['ALLOT', 'SOFT0'], target='market::update_allotment, soft limit 0 (mandatory concurrency)', source=MK, timeout=1800,
             inputs=['IN_soft', 'IN_mand', 'IN_d0', 'IN_d1', 'IN_d2', 'IN_n0', 'IN_n1', 'IN_n2']),
         Job('allot.lemma', C, 'h_allot_lemma', route='BD', defines=['ALLOT_LEMMA', 'LEMMA_LIM=32'], target='step contract SL of the proportional split, with the real * / % (justifies the abstraction used by allot.update_allotment.proportional)', source=MK, timeout=300,
             solver='cadical', bound_text='all six operands < 32 (5 bits)', inputs=['IN_d', 'IN_app', 'IN_mw', 'IN_S', 'IN_A', 'IN_c']),
         Job('allot.update_allotment.real_ops', C, 'h_allot', route='BD', loops=True, nloops=2, defines=['ALLOT_REAL', 'VALMAX=%d' % vmax], solver='cadical',
-            target='market::update_allotment with the real * / % and the non-linear split invariant, any number of clients', source=MK, timeout=600,
+            target='market::update_allotment with the real * / % and the non-linear split invariant, any number of clients', source=MK, timeout=1800,
             bound_text='level demands and soft limit <= %d; client lists of any length' % vmax, inputs=['IN_soft', 'IN_mand', 'IN_d0', 'IN_d1', 'IN_d2', 'IN_n0', 'IN_n1', 'IN_n2']),
         Job('request.arena_update_request', C, 'h_arena_update_request', route='LF', defines=['REQ'], target='arena::update_request (+ clamp<int>, is_arena_workerless)', source=AR, inputs=['IN_mand', 'IN_total', 'IN_md', 'IN_wd', 'IN_maxw']),
         Job('request.pm_client_update_request', C, 'h_pm_update_request', route='LF', defines=['REQ'], target='pm_client::update_request, set_workers', source=PMC, inputs=['IN_mand', 'IN_total', 'IN_md', 'IN_wd', 'IN_maxw']),
@@ -590,18 +777,32 @@ def build(ctx):
         Job('serializer.update', C, 'h_trs_update', route='RG', defines=['TRSQ'], target='thread_request_serializer::update (pending sum within 16 bits)', source=TRS, inputs=['IN_delta', 'IN_pend']),
         Job('serializer.update.wide', C, 'h_trs_update', route='RG', defines=['TRSQ', 'WIDE'], target='thread_request_serializer::update (one call, delta beyond 16 bits)', source=TRS, inputs=['IN_delta', 'IN_pend']),
         Job('serializer.set_active_num_workers', C, 'h_trs_set_active', route='RG', defines=['TRSQ'], target='thread_request_serializer::set_active_num_workers', source=TRS, inputs=['IN_soft']),
-        Job('slots.occupy_free_slot', C, 'h_occupy', route='LC', loops=True, defines=['SLOTS'], target='arena::occupy_free_slot<as_worker> (modular over the loops\' contracts)', source=AR, timeout=600),
+        Job('slots.occupy_free_slot', C, 'h_occupy', route='LC', loops=True, defines=['SLOTS'], target='arena::occupy_free_slot<as_worker> (modular over the loops\' contracts)', source=AR, timeout=1800),
     ]
-    gk = [('parallelism', 'allowed_parallelism_control'), ('stack_size', 'stack_size_control'), ('terminate', 'terminate_on_exception_control'), ('handle', 'lifetime_control')]
+    # global_control: property C16 speaks about max_allowed_parallelism only -> the storage-class dependent jobs are instantiated for allowed_parallelism_control
+    # (thread_stack_size / terminate_on_exception / scheduler handles share create/destroy, whose class-independent part - lock, list membership - is covered by the same jobs)
     gin = ['IN_kind', 'IN_v0', 'IN_v1', 'IN_v2', 'IN_v3', 'IN_active']
-    jobs.append(Job('gcontrol.table', C, 'h_gc_table', route='LF', defines=['GC'], target='controls[] table (global_control_acquire) against d1::global_control::parameter; is_first_arg_preferred of every storage class', source=GC))
-    for short, cls in gk:
-        d = ['GC', 'GC_KIND=KIND_' + cls]
-        jobs.append(Job('gcontrol.comparator.' + short, C, 'h_gc_comparator', route='LF', defines=d, target='control_storage_comparator::operator() on the list of ' + cls, source=GC, inputs=gin))
-        jobs.append(Job('gcontrol.create.' + short, C, 'h_gc_create', route='LF', defines=d, target='global_control_impl::create (+ %s virtuals, control_storage::apply_active)' % cls, source=GC, inputs=gin))
-        jobs.append(Job('gcontrol.destroy.' + short, C, 'h_gc_destroy', route='LF', defines=d, target='global_control_impl::destroy, erase_if_present (+ %s virtuals)' % cls, source=GC, inputs=gin))
-        jobs.append(Job('gcontrol.active_value.' + short, C, 'h_gc_active_value', route='LF', defines=d, target='global_control_active_value -> %s::active_value / default_value' % cls, source=GC, inputs=gin, twin=(short == 'parallelism')))
-    jobs.append(Job('gcontrol.remove_and_check.handle', C, 'h_gc_remove', route='LF', defines=['GC', 'GC_KIND=KIND_lifetime_control'], target='global_control_impl::remove_and_check_if_empty (scheduler handles)', source=GC, inputs=gin))
+    d = ['GC', 'GC_KIND=KIND_allowed_parallelism_control']
+    jobs += [
+        Job('gcontrol.table', C, 'h_gc_table', route='LF', defines=['GC'], target='controls[] table (global_control_acquire) against d1::global_control::parameter; allowed_parallelism_control::is_first_arg_preferred', source=GC),
+        Job('gcontrol.comparator.parallelism', C, 'h_gc_comparator', route='LF', defines=d, target='control_storage_comparator::operator() on the max_allowed_parallelism list', source=GC, inputs=gin),
+        Job('gcontrol.create.parallelism', C, 'h_gc_create', route='LF', defines=d, target='global_control_impl::create (+ allowed_parallelism_control::is_first_arg_preferred/apply_active, control_storage::apply_active)', source=GC, inputs=gin),
+        Job('gcontrol.destroy.parallelism', C, 'h_gc_destroy', route='LF', defines=d, target='global_control_impl::destroy, erase_if_present (+ allowed_parallelism_control::default_value/apply_active)', source=GC, inputs=gin),
+        Job('gcontrol.active_value.parallelism', C, 'h_gc_active_value', route='LF', defines=d, target='global_control_active_value -> allowed_parallelism_control::active_value / default_value', source=GC, inputs=gin),
+        Job('gcontrol.remove_and_check', C, 'h_gc_remove', route='LF', defines=['GC', 'GC_KIND=KIND_lifetime_control'], target='global_control_impl::remove_and_check_if_empty (list membership and lock only)', source=GC, inputs=gin),
+        Job('mandatory.register_request', C, 'h_proxy_register', route='RG', defines=['PROXY'], target='thread_request_serializer_proxy::register_mandatory_request, enable/disable_mandatory_concurrency (+ thread_request_serializer::is_no_workers_avaliable)', source=TRS, inputs=['IN_delta']),
+        Job('mandatory.set_active_num_workers', C, 'h_proxy_set_active', route='RG', defines=['PROXY'], target='thread_request_serializer_proxy::set_active_num_workers', source=TRS, inputs=['IN_soft']),
+        Job('limit.impl_set_active_num_workers', C, 'h_tci_set_active', route='LF', defines=['PLUMB'], target='threading_control_impl::set_active_num_workers', source=TC),
+        Job('limit.impl_adjust_demand', C, 'h_tci_adjust_demand', route='LF', defines=['PLUMB'], target='threading_control_impl::adjust_demand', source=TC),
+        Job('limit.initial', C, 'h_tci_limits', route='LF', defines=['PLUMB'], target='threading_control_impl::calculate_workers_limits, calc_workers_soft_limit', source=TC, inputs=['IN_app', 'IN_ncpu']),
+        Job('limit.initial.soft_limit', C, 'h_tci_soft_limit', route='LF', defines=['PLUMB'], target='threading_control_impl::calc_workers_soft_limit (any hard limit)', source=TC, inputs=['IN_app', 'IN_ncpu']),
+        Job('limit.set_active_num_workers', C, 'h_tc_set_active', route='LF', defines=['PLUMB'], target='threading_control::set_active_num_workers (static)', source=TC),
+        Job('request.register_client', C, 'h_register_client', route='LF', defines=['REG'], target='market::register_client', source=MK),
+        Job('request.unregister_client', C, 'h_unregister_client', route='LF', defines=['REG'], target='market::unregister_and_destroy_client', source=MK),
+        Job('join.try_join', C, 'h_try_join', route='RG', defines=['JOIN'], target='arena::try_join, is_joinable, num_workers_active', source=AR),
+        Job('join.is_recall_requested', C, 'h_is_recall_requested', route='RG', defines=['JOIN'], target='arena::is_recall_requested', source=AH),
+        Job('join.on_thread_leaving', C, 'h_on_thread_leaving', route='RG', defines=['JOIN'], target='arena::on_thread_leaving', source=AR),
+    ]
     return {
         'jobs': jobs, 'sliced': sliced, 'fired': fired,
         'trusted': ['arena::get_critical_task, r1::spawn (stamps the spawned task with the dispatcher\'s current isolation), observers: stubs', 'FastRandom::get(): arbitrary value', 'SC atomics; my_is_occupied is only written by try_occupy/release',
@@ -612,18 +813,31 @@ def build(ctx):
                     'request.advertise_new_work / out_of_work: atomic_flag::test_and_set / try_clear_if are stubs with the behaviour proved in flag.* (predicate evaluated only inside the busy window; true only if it held); has_tasks / has_enqueued_tasks nondeterministic; arena::request_workers records its arguments',
                     'flag.*: every writer of atomic_flag::my_state is test_and_set or try_clear_if (rely = their transitions); a busy token is the address of a live local: never 0 or 1, distinct per thread',
                     'serializer.*: d1::mutex serialises the sections (each section is one step; other holders leave estimate == min(soft limit, total request)); thread_dispatcher::adjust_job_count_estimate only accumulates; every writer of my_pending_delta is update()',
-                    'empty.has_tasks: task_stream::empty() is `population word == 0`; one fixed state is scanned (tasks published during the scan are the flag protocol\'s business)'],
+                    'empty.has_tasks: task_stream::empty() is `population word == 0`; one fixed state is scanned (tasks published during the scan are the flag protocol\'s business)',
+                    'gcontrol.*: std::set<global_control*, control_storage_comparator> keeps its elements unique and ordered under the comparator it is given: find/insert locate an element EQUIVALENT under the sliced comparator, begin() is a live element no live element precedes under the sliced comparator (the comparator itself is proved a strict weak order separating distinct objects, preferred value first: gcontrol.comparator.parallelism); named-element model: 4 named controls (subject, arbitrary other g_k, attaining witness g_w, the element begin() returns) + a count of further elements',
+                    'gcontrol.*: threading_control::set_active_num_workers / max_num_workers, governor::default_num_threads (one fixed value per process) are stubs; virtual calls are dispatched on a class tag by dispatchers generated from which class overrides what; controls[i] classes harvested from global_control_acquire',
+                    'gcontrol.*: every access to my_list / my_active_value happens under my_list_mutex (checked at each access), hence sequential reasoning inside the section',
+                    'mandatory.*: d1::rw_mutex gives reader/writer exclusion; upgrade_to_writer may release the lock (modelled: any number of complete sections of other threads); thread_request_serializer::set_active_num_workers stores the limit (proved separately: serializer.set_active_num_workers); every writer of the proxy state is one of the four sliced functions',
+                    'limit.*: proxy / permit manager / threading_control::release / get_threading_control are stubs recording their arguments',
+                    'join.*: every writer of arena::my_references adds or removes whole references (closed-world scan over src/tbb on every run: loads, `+= arena::ref_worker|ref_external`, `fetch_sub(ref_param`, the constructor\'s `= ref_external`; try_join and on_thread_leaving are sliced, the increments of entering external threads / nested workers in arena.cpp and task.cpp are not); prepare_client_destruction / try_destroy_client / free_arena / out_of_work are stubs',
+                    'request.register_client / unregister_client: std::vector push_back / std::find / erase as membership flags for the subject client and one arbitrary other client'],
         'drops': ['debug pointer/task validity checks -> RG_NOP()', 'local reference aliases (td, a, slot)', 'template<bool as_worker> -> parameter',
                   'update_allotment: reverse iterators over std::vector<pm_client*> -> reverse position index + CLIST_DEREF(it); static_cast to tbb_permit_manager_client dropped; pm_client::my_arena (a reference) -> PMC_ARENA(client)',
                   'update_allotment: the three non-linear operations are named ALLOT_MUL/ALLOT_DIV/ALLOT_MOD (real operators in the BD job, step contract in the unbounded job)',
                   'mutex_type::scoped_lock -> LOCK_MUTEX/UNLOCK_MUTEX at scope exit', 'std::pair<int,int> -> struct int_pair; braced return -> compound literal; int delta{} -> int delta = 0',
                   'template<new_work_type> -> parameter; atomic_fence_seq_cst() -> RG_NOP() (SC assumed); out_of_work lambdas [this]{ return e; } -> lazily evaluated macro argument',
                   'atomic_flag: class constants SET/UNSET -> macros; __TBB_fallthrough -> RG_NOP(); Pred&& pred -> STUB_pred()', 'has_tasks: #if __TBB_PREVIEW_CRITICAL_TASKS resolved to 1 (checked against _config.h)',
-                  'wakeup of sleeping threads in arena::request_workers (not sliced: liveness)'],
-        'not_decided': ['"at any instant" thread counts inside an arena (try_join / is_recall_requested against the allotment, num_workers_active): not built',
-                        'observer entry/exit pairing', 'global_control bookkeeping (control_storage, min over active controls, workers = value-1)',
-                        'thread_request_serializer_proxy (mandatory-concurrency enable/disable around a soft limit of 0) and threading_control plumbing between market and serializer',
-                        'priority satisfaction over time (workers actually migrating after a new allotment)', 'isolation filter of arena_slot::get_task (see C01)',
+                  'wakeup of sleeping threads in arena::request_workers (not sliced: liveness)',
+                  'global_control.cpp: member functions -> C functions on struct cstorage* self (parameters std::size_t -> size_t, unnamed parameters named); virtual calls c->f(..) / f() -> CS_f(c, ..); explicit base call control_storage::apply_active -> control_storage_apply_active(self, ..); d1::global_control& -> struct gcontrol*; std::set operations -> SET_EMPTY/FIND/END/INSERT/ERASE/BEGIN/DEREF; my_active_value -> CS_ACTIVE(c) (lock-checking accessor); spin_mutex::scoped_lock -> LOCK/UNLOCK with the return value computed before the unlock; lhs < rhs on control addresses -> PTR_LT; #if chains of stack_size_control resolved for linux (_WIN32_WINNT, EMSCRIPTEN undefined); ThreadStackSize is a harness constant; __TBB_ASSERT_RELEASE -> obligation',
+                  'serializer proxy: the scoped_lock& parameter of enable/disable_mandatory_concurrency is dropped (it is the caller\'s lock on my_mutex); lock.upgrade_to_writer() -> UPGRADE_TO_WRITER(my_mutex); implicit std::atomic<int> -> int conversion -> load; store to my_is_mandatory_concurrency_enabled -> ENABLED_STORE',
+                  'threading_control plumbing: auto& c = *tc_client.get_pm_client() -> pointer; threading_control* thr_control{nullptr} -> = NULL',
+                  'on_thread_leaving: the local `auto tc_client_snapshot` gets a struct type; register/unregister_client: auto& clients -> pointer, std::find(begin, end, p) -> VEC_FIND, static_cast downcast dropped, destructor / deallocation calls -> stubs'],
+        'not_decided': ['"at any instant" bound of the workers inside an arena by its ALLOTMENT: not provable, arena::try_join is check-then-add (is_joinable, then my_references += ref_worker, no CAS) under a READER lock of the dispatcher, so several workers may pass the test together and overshoot the allotment until is_recall_requested makes the surplus leave; decided instead: a worker adds its reference only after it SAW active < allotted (join.try_join), the word is an exact census of references (join.*), slots bound the threads inside (slots.*)',
+                        'that surplus workers actually leave (waiters.h polling of is_recall_requested) and priority satisfaction over time (workers migrating after a new allotment): liveness',
+                        'observer entry/exit pairing', 'isolation filter of arena_slot::get_task (see C01)',
+                        'global_control: only the max_allowed_parallelism instantiation is under contract (C16 speaks about it only); thread_stack_size / terminate_on_exception / lifetime control are NOT claimed - observation outside C16: control_storage_comparator orders every list by ascending value while destroy() takes *begin(), so for the parameters that prefer the LARGER value the active value falls to the minimum of the live controls after the maximum is destroyed (c16_replay_gc.cpp stack_size|terminate reproduces it through the public API)',
+                        'global_control: global_control_lock/unlock (lock order over the four storages), d1::global_control constructor/destructor, task_scheduler_handle finalize/release, threading_control_impl::calc_workers_soft_limit / calculate_workers_limits (initial limit of a new threading control)',
+                        'mandatory concurrency: SUSPECTED flaw, verifier counterexample only, no native witness: thread_request_serializer_proxy::set_active_num_workers(0) issued while the user limit is ALREADY 0, the flag is on and a disable attempt is pending (counter <= 0) leaves flag on / serializer limit 0; the pending disable then does nothing (it tests !is_no_workers_avaliable()) and later enable attempts are refused (flag already on): no mandatory worker is requested until a non-zero limit is set. Reachable only when max_allowed_parallelism == 1 is re-applied with the default already 1 (single-CPU process) inside the window of upgrade_to_writer releasing the lock. This domain is excluded from mandatory.set_active_num_workers by a stated assumption (the excluded half is the harness variant -DPENDING_DISABLE, which fails "while mandatory concurrency is on the serializer may request exactly ONE worker")',
                         'update_allotment beyond the stated bounds is proved only modulo lemma SL (see trusted); int overflow of max_workers*assigned_per_priority is assumed away',
                         'termination/liveness: missed wake-ups, the deliberately fence-free spawn path of advertise_new_work',
                         'F11 (open): thread_request_serializer::update mis-decodes a delta outside [-2^15, 2^15) - job serializer.update.wide fails by design of the split; serializer.update covers the in-range half'],
@@ -633,7 +847,11 @@ def build(ctx):
                         'allot.update_allotment.soft0: when my_mandatory_num_requested > 0 some client has min_workers > 0 AND max_workers > 0 (needed by the in-code assertion assigned == max_workers and by the exact-sum obligation; it can be false transiently - see report)',
                         'request.*: |outstanding counters| and |deltas| < 2^28; my_max_num_workers <= 2^28; arena priority level < 3; thread-request observer set',
                         'serializer.update: the sum of the deltas pending in my_pending_delta at any one time lies in [-2^15, 2^15) and fewer than 2^15 calls are pending at once (the other half of the domain is serializer.update.wide = F11)',
-                        'flag.*: fewer than 2^40 epochs'],
+                        'flag.*: fewer than 2^40 epochs',
+                        'gcontrol.*: max_allowed_parallelism values are >= 1 (d1::global_control constructor: __TBB_ASSERT_RELEASE) and <= UINT_MAX (threading_control::set_active_num_workers takes an unsigned: a larger value would be truncated); a control is created once and destroyed once (constructor/destructor); all controls in a list carry the list\'s parameter; scheduler-handle controls carry the value 1 (governor.cpp: get)',
+                        'mandatory.*: mandatory_delta in {-1, 0, +1}; counters below 2^20; mandatory.set_active_num_workers: NOT (new limit == 0 while the user limit is already 0, the flag is on and the request counter is <= 0) - see not_decided',
+                        'limit.impl_set_active_num_workers: soft_limit <= the dispatcher\'s hard limit (in-code assertion; a global_control value above hard limit + 1 created after the threading control would violate it - not examined) and <= INT_MAX',
+                        'join.*: fewer than 4096 external references and fewer than 2^19 worker references at any time (field widths of my_references); the leaving thread holds the reference it gives back'],
     }
 
 
@@ -657,8 +875,10 @@ def replay_gc(ctx, jobname, failure):
 
 
 def replay(ctx, jobname, failure):
-    if jobname.startswith('gcontrol.'):
-        return replay_gc(ctx, jobname, failure)
+    if os.environ.get('C16_NO_REPLAY'):      # mutation-testing aid: skip the native builds
+        return {'reproduced': False, 'detail': 'native replay skipped (C16_NO_REPLAY)'}
+    if jobname == 'gcontrol.destroy.parallelism' or jobname == 'gcontrol.create.parallelism' or jobname == 'gcontrol.comparator.parallelism':
+        return replay_gc(ctx, jobname, failure)      # public-API scenario for max_allowed_parallelism only
     if jobname != 'serializer.update.wide' and not jobname.startswith('allot.update_allotment'):
         return {'reproduced': False, 'detail': 'no native recipe: get_critical_task / slot occupation / the flag protocol need a running arena with a forced interleaving; '
                                                'see seeded/C16-1/demo.cpp for a public-API scenario'}
